@@ -615,7 +615,47 @@ fn drift_gate(found: &mut Vec<Found>, classes: &mut BTreeMap<String, u64>) -> u6
     }
     let acct = w.users[0].account;
     let one9 = 1_000_000_000u64;
-    for debt in [0u64, one9 / 10, one9, 3 * one9, 5 * one9] {
+    // with and without a collateral-value cap on the venue bank that its deposits ($1000) stay well below ($100 000):
+    // a cap that does not bite must not change a single verdict
+    let mut borrow_boundaries: Vec<(Option<u64>, u64)> = vec![];
+    for cap in [None, Some(100_000u64)] {
+      let mut s = s.clone();
+      if let Some(cv) = cap {
+        if !process_tx(&mut s, &Tx::one(ix::configure_bank_limits_only(w.group, w.roles.limit, w.banks[0].key, None, None, Some(cv)), &[w.roles.limit])).ok() {
+            *classes.entry("drift_gate:cap_unbuildable".into()).or_insert(0) += 1;
+            continue;
+        }
+      }
+      // how much can be borrowed against the venue collateral: bisected through the real borrow instruction, every
+      // acceptance judged by the reference; the two cap variants must arrive at the same boundary
+      {
+        let mut try_borrow = |amt: u64| -> bool {
+            let mut t = s.clone();
+            let r = act::apply(&w, &mut t, &Action::Borrow { u: 0, b: 1, amt });
+            execs += 1;
+            if r.committed {
+                let h = health::health(&t, &acct, Req::Initial).unwrap();
+                if h.engine_err.is_none() && h.health() < -h.allow.clone() {
+                    found.push(Found { clause: "C04.accepted_implies_healthy".into(), sig: format!("borrow_against_drift:cap{:?}", cap), detail: format!("borrow of {amt} against Drift-held collateral accepted but reference initial health is {:.9}", rf::qf64(&h.health())), replay: json!({"model": "C04drift", "borrow": amt, "cap": cap}) });
+                }
+            }
+            r.committed
+        };
+        let (mut lo, mut hi) = (0u64, 40 * one9);
+        if try_borrow(hi) {
+            lo = hi;
+        }
+        while hi - lo > 1 {
+            let mid = lo + (hi - lo) / 2;
+            if try_borrow(mid) {
+                lo = mid;
+            } else {
+                hi = mid;
+            }
+        }
+        borrow_boundaries.push((cap, lo));
+      }
+      for debt in [0u64, one9 / 10, one9, 3 * one9, 5 * one9] {
         let mut s1 = s.clone();
         if debt > 0 && !act::apply(&w, &mut s1, &Action::Borrow { u: 0, b: 1, amt: debt }).committed {
             *classes.entry("drift_gate:borrow_refused".into()).or_insert(0) += 1;
@@ -659,6 +699,38 @@ fn drift_gate(found: &mut Vec<Found>, classes: &mut BTreeMap<String, u64>) -> u6
             judge(x, false);
         }
         judge(0, true);
+        // the rejection side: where health limits the withdrawal, the health left at the boundary is next to nothing
+        // (one more native unit is worth a millionth of a dollar here; a cent is a generous margin)
+        if lo >= 1 && lo < 1_000_000_000 {
+            let mut t = s1.clone();
+            let ok_lo = process_tx(&mut t, &crate::venue::withdraw_tx(&w, &s1, 0, 0, lo, false, auth)).ok();
+            let mut t2 = s1.clone();
+            let r_next = process_tx(&mut t2, &crate::venue::withdraw_tx(&w, &s1, 0, 0, lo + 1, false, auth));
+            if ok_lo && !r_next.ok() && r_next.code() == ERR_RISK_ENGINE_INIT_REJECTED {
+                let h = health::health(&t, &acct, Req::Initial).unwrap();
+                *classes.entry("drift_gate:boundary_health_limited".into()).or_insert(0) += 1;
+                if h.engine_err.is_none() && h.health() > h.allow.clone() + rf::qfrac(1, 100) {
+                    found.push(Found {
+                        clause: "C04.rejected_implies_unhealthy".into(),
+                        sig: format!("drift_withdraw:debt{debt}:cap{:?}", cap),
+                        detail: format!("drift_withdraw of {} rejected for insufficient health although the reference initial health after withdrawing {} is still {:.6} (assets {:.6}, liabilities {:.6}; collateral-value cap {:?})", lo + 1, lo, rf::qf64(&h.health()), rf::qf64(&h.assets), rf::qf64(&h.liabs), cap),
+                        replay: json!({"model": "C04drift", "debt": debt, "amount": lo + 1, "cap": cap}),
+                    });
+                }
+            }
+        }
+      }
+    }
+    if let [(c0, b0), (c1, b1)] = borrow_boundaries[..] {
+        *classes.entry(format!("drift_gate:borrow_boundary:{}", if b0 == b1 { "same_with_and_without_cap" } else { "DIFFERENT" })).or_insert(0) += 1;
+        if b0 != b1 {
+            found.push(Found {
+                clause: "C04.rejected_implies_unhealthy".into(),
+                sig: "borrow_against_drift:cap_that_does_not_bite".into(),
+                detail: format!("against $1000 of Drift-held collateral up to {b0} native units can be borrowed with collateral-value cap {:?} and up to {b1} with cap {:?}, although the bank's deposits are a hundredth of the cap: the smaller boundary rejects borrows whose health is positive", c0, c1),
+                replay: json!({"model": "C04drift", "borrow_boundaries": [b0, b1]}),
+            });
+        }
     }
     execs
 }
